@@ -322,5 +322,12 @@ EmitLate == (Allowed = {"ok"} /\ LateNames("main") # {}) => PrintT(<<"EMIT", ToJ
 \* malformed middlewares whose FIRST defined function is fine and a LATER one does not take `next` first (every function of
 \* a middleware is checked, not only the first)
 EmitMwNextLater == (bad.k = "mwnext" /\ \E ph \in 1..3 : ph < bad.b /\ Exists(bad.a, ph)) => PrintT(<<"EMIT", ToJson(Rec)>>)
+\* the error renderer (ErrorHandler.render_error / Route(render_error=...)) runs outside every phase: it may take the request
+\* built-ins, the resources in scope where it is installed (the application's for an ErrorHandler, the route's own for
+\* Route(render_error=...)) and `_error` - not `context`, not `next`, nothing a middleware provides
+ErrCandidates == {"context", "next", "_route", "_application", "_dispatch_state", "u1", "u2", "u3"}
+ErrAvail == ReqBuiltins \cup res \cup {"_error"}
+EmitErrNames == (P = {} /\ V = {} /\ bare = {} /\ url = {} /\ rres = {} /\ bad = NoBad) =>
+                   PrintT(<<"EMIT", ToJson([res |-> res, names |-> [nm \in ErrCandidates |-> nm \in ErrAvail]])>>)
 EmitOk == (Allowed = {"ok"} /\ P # {} /\ (V # {} \/ ~NoSrc)) => PrintT(<<"EMIT", ToJson(Rec)>>)
 =============================================================================
